@@ -34,7 +34,8 @@ TECHNIQUE = "history-level class invariant + lock-step FIFO/registration referen
 RULE = (
     "case = history of 40-400 get_cert/add_cert calls on a fresh CertStore (one CA per worker) over a universe of ~170 "
     "names (hosts in 4 zones, nested sub-domains, IPv4/IPv6 addresses, wildcard-shaped names, a 70-character name, an IDN "
-    "given as legacy str SAN), requests = (CN or None, 0-3 SANs), biased to re-request the newest, the oldest-still-cached "
+    "given as legacy str SAN), requests = (CN or None, 0-3 SANs passed as list / tuple / x509.GeneralNames / generator / map object / "
+    "list iterator -- the cache and the oracle are keyed by the logical request, not the container), biased to re-request the newest, the oldest-still-cached "
     "and the just-evicted key; custom certificates registered under exact / wildcard / '*' specs and via their own CN/SANs "
     "at random points; distinct = (eviction bucket, hit bucket, kinds of custom registration matched, IP/wildcard/legacy/"
     "no-CN request features, length class); non-trivial = the history caused >= 1 eviction and >= 1 cache hit. Every third of the "
@@ -56,6 +57,8 @@ LEVEL_TEXT = (
 LEVEL_NOTE = "Trusted: cryptography's X.509 parser (used to re-read the returned certificates), the FIFO reading of 'capacity'."
 
 SLOW_CALL = 0.25
+# the signature is Iterable[x509.GeneralName]: the same logical request is passed in all these container shapes
+SHAPES = ["list", "list", "tuple", "GeneralNames", "generator", "map", "iter"]
 
 ZONES = ["example.com", "test.org", "a.b.example.com", "internal"]
 
@@ -231,11 +234,27 @@ def one_history(ctx, storedir):
             cn, sans, legacy = gen_request()
             if legacy:
                 feats.add("legacy-str-sans")
+                shape = "legacy-str-list"
                 arg = [v for _k, v in sans] + (["bücher.example.com"] if r.random() < 0.3 else [])
                 if len(arg) > len(sans):
                     sans = sans + [("dns", "xn--bcher-kva.example.com")]
             else:
-                arg = [to_general_name(s) for s in sans]
+                gns = [to_general_name(s) for s in sans]
+                shape = r.choice(SHAPES)
+                feats.add("sans-as-" + shape)
+                ctx.seen("san_container_shapes", shape)
+                if shape == "list":
+                    arg = gns
+                elif shape == "tuple":
+                    arg = tuple(gns)
+                elif shape == "GeneralNames":
+                    arg = x509.GeneralNames(gns)
+                elif shape == "generator":
+                    arg = (g for g in gns)
+                elif shape == "map":
+                    arg = map(to_general_name, list(sans))
+                else:
+                    arg = iter(gns)
             if any(k == "ip" for k, _ in sans):
                 feats.add("ip-san")
             if any(v.startswith("*") for _k, v in sans):
@@ -253,7 +272,7 @@ def one_history(ctx, storedir):
                 dt = time.monotonic() - t_call
             except Exception as e:
                 ctx.violation("get_cert-raises", {"cn": cn, "sans": sans, "exc": repr(e), "history_tail": hist[-5:]}, None)
-                hist.append(("get_cert", cn, sans, "EXC"))
+                hist.append(("get_cert", cn, sans, "EXC", shape))
                 continue
             # a lookup normally takes < 1 ms; two consecutive calls > SLOW_CALL s mean the store degenerated
             # (cannot be judged further, and continuing would exhaust memory/time): stop this worker gracefully.
@@ -271,11 +290,11 @@ def one_history(ctx, storedir):
             if label is not None:
                 # ---- custom certificate returned
                 ctx.count("names_custom")
-                hist.append(("get_cert", cn, sans, label))
+                hist.append(("get_cert", cn, sans, label, shape))
                 if label not in candidates:
                     ctx.violation(
                         "custom-cert-for-unrelated-names",
-                        {"cn": cn, "sans": sans, "returned": label, "model_candidates": candidates,
+                        {"cn": cn, "sans": sans, "sans_passed_as": shape, "returned": label, "model_candidates": candidates,
                          "lookup_names": lookup_names(cn, sans), "registrations": [h for h in hist if h[0] == "add_cert"]},
                         classify("custom", None),
                     )
@@ -300,7 +319,7 @@ def one_history(ctx, storedir):
                 if sorted(got_sans) != sorted(sans) or got_cn != want_cn:
                     ctx.violation(
                         "generated-cert-for-other-names",
-                        {"requested": [cn, sans], "certificate": [got_cn, got_sans], "history_tail": hist[-5:]},
+                        {"requested": [cn, sans], "sans_passed_as": shape, "certificate": [got_cn, got_sans], "history_tail": hist[-5:]},
                         classify("names", None),
                     )
                 ctx.count("repeat_same")
@@ -314,7 +333,7 @@ def one_history(ctx, storedir):
                     if by_key.get(key) is not entry:
                         ctx.violation(
                             "repeat-request-returns-different-certificate-while-cached",
-                            {"requested": [cn, sans], "model_fifo_position": model.fifo.index(key), "model_fifo_len": len(model.fifo),
+                            {"requested": [cn, sans], "sans_passed_as": shape, "model_fifo_position": model.fifo.index(key), "model_fifo_len": len(model.fifo),
                              "generated_total": model.generated_total, "history_tail": hist[-5:]},
                             classify("repeat", None),
                         )
@@ -327,7 +346,7 @@ def one_history(ctx, storedir):
                     ctx.count("evictions")
                     by_key.pop(ev, None)
                 by_key[key] = entry
-                hist.append(("get_cert", cn, sans, "generated" + ("/hit" if was_cached else "")))
+                hist.append(("get_cert", cn, sans, "generated" + ("/hit" if was_cached else ""), shape))
         # ---- class invariant after every call
         ctx.count("bound")
         gen = {id(v) for v in store.certs.values() if id(v) not in custom_ids}
